@@ -653,6 +653,23 @@ func (fr *Frame) analyzeLoops() []*ssa.BasicBlock {
 		hs = append(hs, h)
 	}
 	sort.Slice(hs, func(i, j int) bool { return loopPos(fr.loops[hs[i]]) < loopPos(fr.loops[hs[j]]) })
+	// a contract that carries invariants for more loops than the function has was written for another shape of the
+	// function (a loop was moved out or removed): its loop ordinals no longer bind
+	{
+		var sp *FuncSpec
+		if fr.spec != nil && fr.isTop {
+			sp = fr.spec
+		} else {
+			sp = fr.e.P.Specs[funcKey(fr.fn)]
+		}
+		if sp != nil {
+			for n, ls := range sp.Loops {
+				if n > len(hs) && ls != nil && len(ls.Invariants) > 0 {
+					panic(specErr("the contract carries invariants for loop %d but the function has %d loop(s): the loop ordinals no longer bind", n, len(hs)))
+				}
+			}
+		}
+	}
 	for i, h := range hs {
 		fr.loops[h].ord = i + 1
 		if fr.spec != nil && fr.isTop {
